@@ -79,7 +79,7 @@ def tad_pipe():
     return _pipe["tad"]
 
 
-BUILD = dict(final_to_dead=G.final_to_dead, zero_alive=G.zero_alive, order_sum=G.order_sum, zero_dead=G.zero_dead, p2_selfloop=G.p2_selfloop, huge_reward=G.huge_reward, zero_branch=G.zero_branch, decimals2=G.decimals2, tiny_vs_dead=G.tiny_vs_dead, cancel_mass=G.cancel_mass,
+BUILD = dict(near_chain=G.near_chain, final_to_dead=G.final_to_dead, zero_alive=G.zero_alive, order_sum=G.order_sum, zero_dead=G.zero_dead, p2_selfloop=G.p2_selfloop, huge_reward=G.huge_reward, zero_branch=G.zero_branch, decimals2=G.decimals2, tiny_vs_dead=G.tiny_vs_dead, cancel_mass=G.cancel_mass,
              dead_branch_rewards=G.dead_branch_rewards, corridor=G.corridor, p1_final=G.p1_final, init_final=G.init_final, big_rewards=G.big_rewards, dup_actions=G.dup_actions, decimals=G.decimals,
              tie_small=G.tie_small, all_live_orphan=G.all_live_orphan, p2_shared=G.p2_shared, paid_final=G.paid_final, orphans=G.orphans, slow_rew=G.slow_rew, regroup=G.regroup, rew_ties=G.rew_ties, fig55=G.fig55, dead=G.dead_family, cyc=G.cyc, cyc2=G.cyc2, ec=G.ec, finals=G.finals, p2choice=G.p2choice,
              lex=G.lex, ties=G.ties, ties_p2=G.ties_p2, nosol=G.nosol, unreach=G.unreach, slow_chain=G.slow_chain)
